@@ -8,6 +8,11 @@
 //   relc15 <classes> <pts>                   implementation-only oracle: conservation, size >= 13, 3 cm connectivity,
 //                                            sanity of the oracle tables (NoDup bins, symmetric near, class consistency)
 //   relc15v <classes> <pts>                  implementation-only oracle: track partition, primary has >= 2 tracks
+//   c15bins <point> <rhoseq>                 real get_bins (hook verif_hough_bins(p, 250, 230)) vs the model of its loop
+//                                            structure (coq/Recon/Bins.v, get_bins_res 230) fed with <rhoseq>: the
+//                                            231 values prev_rho_bin, rho_bin(theta_bin = 1..=230), recomputed here
+//                                            with the operations of track_finding.rs:121-135; both sides print the
+//                                            bin list run-length encoded as in <bins>
 // <classes>: `;`-separated `==`-classes (derived PartialEq) of the input objects, each as `.`-separated
 //            16-hex-digit bit patterns (points: r phi z; tracks: x0 y0 z0 r phi0 h t_inner t_outer); `-` if none
 // <pts>:     `,`-separated class ids of the input in order
@@ -143,6 +148,44 @@ fn rle_bins(b: &[(u32, u32)]) -> String {
         i += n;
     }
     join(&out, ",")
+}
+/// The float part of get_bins (track_finding.rs:121-135), the same uom operations in the same order: element 0 is
+/// prev_rho_bin before the loop (:130), element k the `rho_bin` of iteration theta_bin = k (:132-135).
+fn rho_bin_sequence(point: SpacePoint, rho_bins: u32, theta_bins: u32) -> Vec<i32> {
+    use alpha_g_detector::alpha16::aw_map::INNER_CATHODE_RADIUS;
+    use uom::si::f64::ReciprocalLength;
+    use uom::si::ratio::ratio;
+    use uom::si::reciprocal_length::reciprocal_meter;
+    use uom::typenum::P2;
+    let rho_max = ReciprocalLength::new::<reciprocal_meter>(1.0 / INNER_CATHODE_RADIUS); // RHO_MAX  :90-94
+    let u = point.x() / point.r.powi(P2::new()); // u_v  :110-111
+    let v = point.y() / point.r.powi(P2::new());
+    let delta_theta = Angle::FULL_TURN / f64::from(theta_bins); // :123
+    let delta_rho = rho_max / f64::from(rho_bins); // :124
+    let mut seq = vec![(u / delta_rho).get::<ratio>().floor() as i32]; // :130
+    for theta_bin in 1..=theta_bins {
+        let theta = f64::from(theta_bin) * delta_theta; // :132
+        let (sin, cos) = theta.sin_cos(); // :133
+        let rho = u * cos + v * sin; // :134
+        seq.push((rho / delta_rho).get::<ratio>().floor() as i32); // :135
+    }
+    seq
+}
+fn observe_bins(p: SpacePoint) -> String {
+    match catch(move || hough_bins(p)) {
+        None => "panic".to_string(),
+        Some(b) => format!("ok {}", if b.is_empty() { "-".to_string() } else { rle_bins(&b) }),
+    }
+}
+fn emit_bins(s: &mut Sink, label: &str, p: SpacePoint) {
+    let b = bits(p);
+    let seq = rho_bin_sequence(p, 250, 230);
+    s.put(
+        &format!("c15bins {:016x}.{:016x}.{:016x} {}", b[0], b[1], b[2], join(&seq, ",")),
+        &observe_bins(p),
+        label,
+        seq.iter().any(|&x| x >= 0),
+    );
 }
 fn near_rows(reps: &[SpacePoint]) -> Vec<Vec<usize>> {
     reps.iter()
@@ -845,6 +888,25 @@ pub fn run(tier: &str, seed: u64, s: &mut Sink) {
         let (label, t) = gen_tracks(&mut r);
         emit_vertex(s, label, &t);
     }
+    // get_bins alone: the loop structure of the model against the real bins (drawn last, so that the cases above
+    // are the ones they were before these lines existed)
+    for (r0, phi) in [(R_IN, 0.0), (R_IN, PI), (R_IN, -PI), (R_OUT, 0.5 * PI), (R_OUT, -0.5 * PI), (0.15, -0.0), (0.15, 2.0 * PI / 230.0)] {
+        emit_bins(s, "bins-fixed", sp_f(r0, phi, 0.0));
+    }
+    let n_b = if thorough { 6000 } else { 600 };
+    for k in 0..n_b {
+        let (label, p) = match k % 4 {
+            0 => ("bins-volume", random_point(&mut r, false)),
+            1 => ("bins-wide", random_point(&mut r, true)),
+            2 => ("bins-quantized", quantize(random_point(&mut r, false))),
+            // phi on a multiple of delta_theta (sign changes of rho at bin edges)
+            _ => {
+                let q = random_point(&mut r, false);
+                ("bins-theta-edge", (q.0, 2.0 * PI / 230.0 * (r.below(231) as f64 - 115.0), q.2))
+            }
+        };
+        emit_bins(s, label, sp_f(p.0, p.1, p.2));
+    }
 }
 
 /// implementation observation for a case line of this module (None: not one of mine)
@@ -869,6 +931,10 @@ pub fn observe_line(line: &str) -> Option<String> {
         }),
         "c15bc" if f.len() == 5 => Some(match parse_tracks(f[1], f[2]) {
             Some(t) => observe_beamline(&t),
+            None => "bad-case".to_string(),
+        }),
+        "c15bins" if f.len() == 3 => Some(match parse_points(f[1], "0") {
+            Some(p) => observe_bins(p[0]),
             None => "bad-case".to_string(),
         }),
         "relc15v" if f.len() == 3 => Some(match parse_tracks(f[1], f[2]) {
